@@ -17,7 +17,9 @@ Modes == {"workspace", "workspace_ppl", "single"}     \* workspace_ppl: the sele
 \* text files: the WHOLE content becomes field `message` (several lines, surrounding blanks and a final line break included)
 Inputs == {"none", "text", "text_multiline", "lineprotocol", "lp_comment_first", "lp_blank_first", "lp_newline_in_field"}
 Outputs == {"json", "lineprotocol"}
-Kinds == {"noop", "addField", "toTag", "setMeas", "clearMeas", "setTime", "dropMsg", "useSibling", "loadErr", "runErr", "linkErr"}
+\* crlfField: the script file has CR LF line ends, also inside a multi-line string literal whose value it stores: the script
+\* that runs is the file's bytes, nothing is normalised on the way
+Kinds == {"noop", "addField", "crlfField", "toTag", "setMeas", "clearMeas", "setTime", "dropMsg", "useSibling", "loadErr", "runErr", "linkErr"}
 
 VARIABLES cfg, phase, pt, snap, out, err
 vars == <<cfg, phase, pt, snap, out, err>>
@@ -25,7 +27,7 @@ vars == <<cfg, phase, pt, snap, out, err>>
 Pt0 == [meas |-> "in", time |-> "in", added |-> FALSE, totag |-> FALSE, dropped |-> FALSE, fromlib |-> FALSE]
 None == [meas |-> "-", time |-> "-", added |-> FALSE, totag |-> FALSE, dropped |-> FALSE, fromlib |-> FALSE]
 
-Effect(k, p) == CASE k = "addField" -> [p EXCEPT !.added = TRUE]
+Effect(k, p) == CASE k \in {"addField", "crlfField"} -> [p EXCEPT !.added = TRUE]
                   [] k = "toTag" -> [p EXCEPT !.totag = TRUE]
                   [] k = "setMeas" -> [p EXCEPT !.meas = "new"]
                   [] k = "clearMeas" -> [p EXCEPT !.meas = "empty"]     \* set_measurement(""): an empty name is still the script's result
